@@ -55,6 +55,7 @@ Lemma c_loop_S : forall S f (cdef cond : S -> bool) body inc s,
       | CRet v => CRet v
       | CUndef w => CUndef w
       | CUnsup w => CUnsup w
+      | CRetS v s' => CRetS v s'
       end
     else CNorm s
   else CUndef "loop condition".
@@ -77,6 +78,7 @@ Lemma c_loop_iter : forall S f (cdef cond : S -> bool) body inc s,
   | CRet v => CRet v
   | CUndef w => CUndef w
   | CUnsup w => CUnsup w
+  | CRetS v s' => CRetS v s'
   end.
 Proof. intros S f cdef cond body inc s Hd Hc. rewrite c_loop_S, Hd, Hc. reflexivity. Qed.
 
